@@ -342,9 +342,9 @@ def combine_conditions(atoms: Sequence[str], rng: random.Random, n: int) -> list
 
 INT_LEAVES = ["0", "1", "2", "3", "7", "10", "31", "32", "63", "64", "65", "255", "1023", "1024", "2147483647",
               "2147483648", "4294967295", "9223372036854775807", "9223372036854775808", "18446744073709551617",
-              "100000000000000000000", "0x10", "0b101", "0o17", "1_000"]
+              "100000000000000000000", "0x10", "0b101", "0o17", "1_000", "(-1)", "(-2)", "(-7)", "(-9223372036854775808)"]
 FLOAT_LEAVES = ["0.0", "1.0", "0.5", "2.5", "3.0", "1e308", "5e-324", "1e-320", "1.5e300", "0.1", "7.0", "1e16",
-                "9007199254740993.0", "1e400"]
+                "9007199254740993.0", "1e400", "(-2.5)", "(-0.0)"]
 STR_LEAVES = ['""', '"a"', '"ab"', "'\\n'", '"\\u00e9"', 'r"\\x"']
 BYTES_LEAVES = ['b""', 'b"a"', 'b"\\xff"', 'b"ab"']
 COMPLEX_LEAVES = ["1j", "0j", "2.5j", "1e308j"]
